@@ -248,3 +248,6 @@ fn get_metrics(status: Option<TransformStatus>, file: &str) -> Option<Metrics> {
     }
     None
 }
+
+#[cfg(datadog_dd_native_iast_rewriter_js_verif)]
+pub mod verif;
